@@ -19,10 +19,23 @@
       receives nothing;
     * `C10_witness_*` — kernel-checked concrete failures of today's code that are *reported* errors
       (A/AAAA residue, SRV label, CNAME overflow) and the one silent one (Raw over names).
-  Multi-record reassembly (order tags, TypePriority sort) is in the executable model and in the
-  correspondence, not in a theorem: see notes/C10.md.
+  Extension (second half of the file): multi-record reassembly is now a theorem.
+    * `C10_sort_inverts_tagging` — the key lemma, generic: records tagged o, o+1, … whose decoded key is
+      strictly increasing on the tags used, in ANY arrival order, under ANY correct comparison sort
+      (`SortSpec`: permutation + ordered; all `sort.Slice` promises), unwrap to the pieces in order.
+      `C10_sort_model_correct`, `C10_sorts_agree_on_distinct_tags` tie the model's insertion sort to it.
+    * `C10_tag_range` — per record type, the exact record count up to which the decoded tags increase
+      (NULL/PRIVATE/AAAA/SRV 65535, A 255, MX 6553, TXT 512, CNAME 511) and that the next tag wraps.
+    * `C10_reassembly` — every record type, every payload length: if WrapDnsResponse and Pack/Unpack
+      succeed, the record count is within the tag range and the input is outside `C10_exception`, the
+      client decodes exactly the response sent (and would for any arrival order / sort).
+    * `C10_multi_null_priv`, `C10_multi_txt`, `C10_multi_a_aaaa` — success is unconditional there.
+    * `C10_a_overflow_reported` — beyond 255 A records an error is reported.
+    * `C10_no_silent_corruption` — on every input outside the exception region and within the tag
+      range: the response sent, or an error; never a different response, never a panic.
 -/
 import SA.Proofs.DnsResp
+import SA.Proofs.DnsRespAll
 namespace SA.DnsResp
 open SA.DnsWire SA.WireCodec SA.DnsReq
 
@@ -216,6 +229,168 @@ theorem C10_witness_raw_over_names : ¬ C10_full := by
   rw [hv] at this
   exact absurd this (by decide)
 
+/-! ## Extension: multi-record reassembly and "no silent corruption" -/
+
+/-- the model's insertion sort meets the contract of a comparison sort (permutation, ordered) -/
+theorem C10_sort_model_correct : SortSpec sortByKey := sortByKey_spec
+
+/-- any two correct comparison sorts (the model's, Go's `sort.Slice`, …) agree whenever the keys are
+    pairwise distinct — stability is irrelevant there -/
+theorem C10_sorts_agree_on_distinct_tags {s₁ s₂ : List (Int × RR) → List (Int × RR)}
+    (h₁ : SortSpec s₁) (h₂ : SortSpec s₂) (xs : List (Int × RR)) (hd : xs.Pairwise (fun a b => a.1 ≠ b.1)) :
+    s₁ xs = s₂ xs := sorts_agree h₁ h₂ xs hd
+
+/-- **Key lemma: sorting by the decoded tag is the inverse of tagging.**  `rs` are records tagged
+    o, o+1, … (`Tagged`: TypePriority decodes `kf` of the tag, UnwrapDnsResponse extracts the piece);
+    if `kf` is strictly increasing on the tags used, then for ANY arrival order `xs` of the records and
+    ANY correct sort, unwrapping yields the pieces concatenated in tagging order. -/
+theorem C10_sort_inverts_tagging {sort : List (Int × RR) → List (Int × RR)} (hs : SortSpec sort)
+    (L : Nat) (kf : Nat → Int) (o : Nat) (rs : List RR) (ds : List (List Nat)) (ht : Tagged L kf o rs ds)
+    (hmono : ∀ i j, o ≤ i → i < j → j < o + rs.length → kf i < kf j)
+    (xs : List RR) (hp : xs.Perm rs) :
+    unwrapWith sort L xs = some ds.flatten := unwrap_tagged hs L kf o rs ds ht hmono xs hp
+
+/-- **The tag range, exactly.**  For each record type the decoded order tag (`tagKey`: little-endian
+    16-bit for NULL / PRIVATE / AAAA, one byte for A, Preference = 10·order mod 2¹⁶ for MX, Priority for
+    SRV, and for TXT / CNAME the two base-32 characters `order & 31`, `(order >> 4) & 31` read back as
+    c0 + 32·c1) is strictly increasing over the first `tagBound` records, and the tag of the next
+    record is not above that of the first: reassembly by sorting is correct up to exactly
+    65535 / 65535 / 65535 / 255 / 6553 / 65535 / 512 / 511 records. -/
+theorem C10_tag_range (t : RRType) :
+    (∀ i j, tagStart t ≤ i → i < j → j < tagStart t + tagBound t → tagKey t i < tagKey t j)
+    ∧ tagKey t (tagStart t + tagBound t) ≤ tagKey t (tagStart t) := ⟨tagKey_mono t, tagKey_wraps t⟩
+
+/-- the record count WrapDnsResponse produces stays within the tag range -/
+def C10_countOk (t : RRType) (domainLen len : Nat) : Bool := recordCount t domainLen len ≤ tagBound t
+
+/-- the region excepted from the theorems below = the open finding `C10-raw-over-names`: a
+    name-carrying record type (CNAME, MX, SRV) and an encoded payload containing '.' or '\\' -/
+def C10_exception (t : RRType) (enc : List Nat) : Bool := rawOverNames t enc
+
+/-- **C10, reassembly for every record type and payload length.**  Whenever WrapDnsResponse succeeds
+    and every record survives Pack/Unpack — outside the exception region, within the tag range, for
+    CNAME/MX/SRV over a domain of plain labels — the client decodes exactly the response that was sent,
+    from as many records as the wrapper made; and UnwrapDnsResponse would return the same payload for
+    any arrival order of the records and any correct sort. -/
+theorem C10_reassembly (b32 down : Codec) (hb : b32.Good) (hd : down.Good)
+    (t : RRType) (domain : List Nat) (dls : List (List Nat)) (r : Resp) (hr : RespOk r)
+    (hq : questionOk domain = true) (hbytes : SA.Bytes (encodeResp b32 down r))
+    (hexc : C10_exception t (encodeResp b32 down r) = false)
+    (hdom : isName t = true → DomainOk domain dls)
+    (hcount : C10_countOk t domain.length (encodeResp b32 down r).length = true)
+    (answers got : List RR)
+    (hw : wrap t domain (encodeResp b32 down r) = some answers) (hwire : answersOverWire answers = .ok got) :
+    roundTrip b32 down t domain r
+        = .ok (recordCount t domain.length (encodeResp b32 down r).length) (encodeResp b32 down r).length r
+    ∧ ∀ sort, SortSpec sort → ∀ xs, xs.Perm got →
+        unwrapWith sort domain.length xs = some (encodeResp b32 down r) := by
+  have hcnt := wrap_count t domain _ answers hw
+  have hc : answers.length ≤ tagBound t := by
+    rw [hcnt]; simpa [C10_countOk] using hcount
+  have hdec := decodeResp_encodeResp b32 down hb hd r hr
+  have hall := unwrap_wire_wrap t domain dls _ answers got hbytes hexc hdom hw hwire hc
+  constructor
+  · have h3 := (hall sortByKey sortByKey_spec got (List.Perm.refl _)).2
+    rw [← unwrap_eq_unwrapWith] at h3
+    have := roundTrip_of b32 down t domain r r answers got _ hw hq hwire h3 hdec
+    rw [this, (hall sortByKey sortByKey_spec got (List.Perm.refl _)).1, hcnt]
+  · intro sort hs xs hp
+    exact (hall sort hs xs hp).2
+
+/-- **C10, NULL and PRIVATE, every payload length.**  ⌈len/65530⌉ records, little-endian 16-bit order
+    tags; as long as that count is at most 65535 the round trip succeeds. -/
+theorem C10_multi_null_priv (b32 down : Codec) (hb : b32.Good) (hd : down.Good)
+    (t : RRType) (ht : t = .null ∨ t = .priv) (domain : List Nat) (r : Resp) (hr : RespOk r)
+    (hq : questionOk domain = true) (hbytes : SA.Bytes (encodeResp b32 down r))
+    (hcount : C10_countOk t domain.length (encodeResp b32 down r).length = true) :
+    roundTrip b32 down t domain r
+      = .ok (ceilDiv (encodeResp b32 down r).length 65530) (encodeResp b32 down r).length r := by
+  rcases ht with rfl | rfl
+  · have hw : wrap .null domain (encodeResp b32 down r) = some ((chunkRecs SA.Gen.C09.wrapChunkNull (fun o => le16 o)
+        (encodeResp b32 down r).length 1 (encodeResp b32 down r)).map .null) := by simp only [wrap]
+    exact (C10_reassembly b32 down hb hd .null domain [] r hr hq hbytes (by simp [C10_exception, rawOverNames, isName])
+      (by simp [isName]) hcount _ _ hw
+      (wire_null_priv RR.null (Or.inl rfl) SA.Gen.C09.wrapChunkNull (by decide) (by decide) _ 1 _)).1
+  · have hw : wrap .priv domain (encodeResp b32 down r) = some ((chunkRecs SA.Gen.C09.wrapChunkPrivate (fun o => le16 o)
+        (encodeResp b32 down r).length 1 (encodeResp b32 down r)).map .priv) := by simp only [wrap]
+    exact (C10_reassembly b32 down hb hd .priv domain [] r hr hq hbytes (by simp [C10_exception, rawOverNames, isName])
+      (by simp [isName]) hcount _ _ hw
+      (wire_null_priv RR.priv (Or.inr rfl) SA.Gen.C09.wrapChunkPrivate (by decide) (by decide) _ 1 _)).1
+
+/-- **C10, TXT, every payload length.**  253-byte strings, 250 strings per record, backslashes doubled
+    by the wrapper and every byte value escaped by miekg and unescaped by the client; as long as the
+    record count ⌈⌈len/253⌉/250⌉ is at most 512 the round trip succeeds. -/
+theorem C10_multi_txt (b32 down : Codec) (hb : b32.Good) (hd : down.Good)
+    (domain : List Nat) (r : Resp) (hr : RespOk r)
+    (hq : questionOk domain = true) (hbytes : SA.Bytes (encodeResp b32 down r))
+    (hcount : C10_countOk .txt domain.length (encodeResp b32 down r).length = true) :
+    roundTrip b32 down .txt domain r
+      = .ok (ceilDiv (ceilDiv (encodeResp b32 down r).length 253) 250) (encodeResp b32 down r).length r := by
+  obtain ⟨answers, got, _, h1, h2, _⟩ := tagged_txt domain _ hbytes
+  exact (C10_reassembly b32 down hb hd .txt domain [] r hr hq hbytes (by simp [C10_exception, rawOverNames, isName])
+    (by simp [isName]) hcount answers got h1 h2).1
+
+/-- **C10, A and AAAA, on the region where packing succeeds** (payload a multiple of 3 / 14 bytes, at
+    most 255 / 65535 records): the round trip succeeds. -/
+theorem C10_multi_a_aaaa (b32 down : Codec) (hb : b32.Good) (hd : down.Good)
+    (t : RRType) (ht : (t = .a ∧ (encodeResp b32 down r).length % 3 = 0)
+      ∨ (t = .aaaa ∧ (encodeResp b32 down r).length % 14 = 0))
+    (domain : List Nat) (hr : RespOk r)
+    (hq : questionOk domain = true) (hbytes : SA.Bytes (encodeResp b32 down r))
+    (hcount : C10_countOk t domain.length (encodeResp b32 down r).length = true) :
+    roundTrip b32 down t domain r
+      = .ok (recordCount t domain.length (encodeResp b32 down r).length) (encodeResp b32 down r).length r := by
+  rcases ht with ⟨rfl, hm⟩ | ⟨rfl, hm⟩
+  · have hle : ¬ ((chunkRecs SA.Gen.C09.wrapChunkA (fun o => [o % 256]) (encodeResp b32 down r).length 1
+        (encodeResp b32 down r)).length > 255) := by
+      rw [chunkRecs_length, pieces_length _ (by decide) _ _ (Nat.le_refl _)]
+      have : recordCount .a domain.length (encodeResp b32 down r).length ≤ 255 := of_decide_eq_true hcount
+      exact Nat.not_lt.mpr this
+    have hw : wrap .a domain (encodeResp b32 down r) = some ((chunkRecs SA.Gen.C09.wrapChunkA (fun o => [o % 256])
+        (encodeResp b32 down r).length 1 (encodeResp b32 down r)).map .a) := by simp only [wrap, hle, if_false]
+    exact (C10_reassembly b32 down hb hd .a domain [] r hr hq hbytes (by simp [C10_exception, rawOverNames, isName])
+      (by simp [isName]) hcount _ _ hw (wire_a _ 1 _ hm)).1
+  · have hw : wrap .aaaa domain (encodeResp b32 down r) = some ((chunkRecs SA.Gen.C09.wrapChunkAAAA (fun o => le16 o)
+        (encodeResp b32 down r).length 1 (encodeResp b32 down r)).map .aaaa) := by simp only [wrap]
+    exact (C10_reassembly b32 down hb hd .aaaa domain [] r hr hq hbytes (by simp [C10_exception, rawOverNames, isName])
+      (by simp [isName]) hcount _ _ hw (wire_aaaa _ 1 _ hm)).1
+
+/-- **C10, the A tag cannot wrap silently**: more than 255 A records are refused by the wrapper. -/
+theorem C10_a_overflow_reported (b32 down : Codec) (domain : List Nat) (r : Resp)
+    (hcount : C10_countOk .a domain.length (encodeResp b32 down r).length = false) :
+    roundTrip b32 down .a domain r = .encError := by
+  apply C10_error_reported_wrap
+  have hgt : (chunkRecs SA.Gen.C09.wrapChunkA (fun o => [o % 256]) (encodeResp b32 down r).length 1
+      (encodeResp b32 down r)).length > 255 := by
+    rw [chunkRecs_length, pieces_length _ (by decide) _ _ (Nat.le_refl _)]
+    have : ¬ (recordCount .a domain.length (encodeResp b32 down r).length ≤ 255) := of_decide_eq_false hcount
+    exact Nat.not_le.mp this
+  simp only [wrap, hgt, if_true]
+
+/-- **C10, no silent corruption.**  On every input — every record type, every payload length, every
+    codec pair with round trip, every response in range — outside the exception region
+    (`C10_exception`, the open finding) and within the tag range (`C10_countOk`), over a domain of plain
+    labels for the name-carrying types: the client's result is the response that was sent or a
+    reported error; never a different response, never a panic. -/
+theorem C10_no_silent_corruption (b32 down : Codec) (hb : b32.Good) (hd : down.Good)
+    (t : RRType) (domain : List Nat) (dls : List (List Nat)) (r : Resp) (hr : RespOk r)
+    (hq : questionOk domain = true) (hbytes : SA.Bytes (encodeResp b32 down r))
+    (hexc : C10_exception t (encodeResp b32 down r) = false)
+    (hdom : isName t = true → DomainOk domain dls)
+    (hcount : C10_countOk t domain.length (encodeResp b32 down r).length = true) :
+    match roundTrip b32 down t domain r with
+    | .ok _ _ r' => r' = r
+    | .panic => False
+    | _ => True := by
+  cases hw : wrap t domain (encodeResp b32 down r) with
+  | none => rw [C10_error_reported_wrap b32 down t domain r hw]; trivial
+  | some answers =>
+    cases hwire : answersOverWire answers with
+    | error e =>
+      rcases C10_error_reported_wire b32 down t domain r answers e hw hwire with h | h <;> rw [h] <;> trivial
+    | ok got =>
+      rw [(C10_reassembly b32 down hb hd t domain dls r hr hq hbytes hexc hdom hcount answers got hw hwire).1]
+
 /-! ### non-vacuity -/
 
 /-- the hypotheses of `C10_partial` are satisfiable together (Raw over NULL, TXT and PRIVATE; the TXT
@@ -246,3 +421,13 @@ end SA.DnsResp
 #print axioms SA.DnsResp.C10_witness_aaaa_residue
 #print axioms SA.DnsResp.C10_witness_srv_label
 #print axioms SA.DnsResp.C10_witness_raw_over_names
+#print axioms SA.DnsResp.C10_sort_model_correct
+#print axioms SA.DnsResp.C10_sorts_agree_on_distinct_tags
+#print axioms SA.DnsResp.C10_sort_inverts_tagging
+#print axioms SA.DnsResp.C10_tag_range
+#print axioms SA.DnsResp.C10_reassembly
+#print axioms SA.DnsResp.C10_multi_null_priv
+#print axioms SA.DnsResp.C10_multi_txt
+#print axioms SA.DnsResp.C10_multi_a_aaaa
+#print axioms SA.DnsResp.C10_a_overflow_reported
+#print axioms SA.DnsResp.C10_no_silent_corruption
